@@ -39,11 +39,30 @@ impl Prop for C15P {
                 v.push(Recv::window(c + 1, r + 1, (1, 1), (1 + c, 1 + r)).enc());
                 v.push(Recv::nested(c + 3, r + 2, (1, 0), (c + 3, r + 2), (1, 1), (1 + c, 1 + r)).enc());
                 v.push(Recv::foreign_window(c + 2, r + 1, (1, 0), (1 + c, r)).enc());
+                // a band of rows spanning the full width of a NARROW outer window
+                if c > 0 {
+                    v.push(Recv::nested(c + 2, r + 2, (1, 0), (1 + c, r + 2), (0, 1), (c, 1 + r)).enc());
+                }
+                v.push(format!("zst {}x{}", c, r));
             }
         }
         v
     }
     fn run_unit(&self, unit: &str, ctx: &mut Ctx) {
+        if let Some(dims) = unit.strip_prefix("zst ") {
+            let (c, r) = dims.split_once('x').unwrap();
+            let (c, r): (usize, usize) = (c.parse().unwrap(), r.parse().unwrap());
+            let mut ops: Vec<Op> = vec![Op::FlipRows, Op::FlipCols];
+            for mc in 0..=c + 2 {
+                for mr in 0..=r + 2 {
+                    ops.push(Op::Translate(mc, mr));
+                }
+            }
+            ops.push(Op::Translate(usize::MAX, 0));
+            ops.push(Op::Translate(0, usize::MAX));
+            super::ops::zst_panic_differential(c, r, &ops, ctx);
+            return;
+        }
         let rd = Recv::parse(unit);
         let (c, r) = rd.size();
         let rect = rd.rect();
@@ -118,7 +137,7 @@ impl Prop for C15P {
     fn rule(&self) -> String {
         "every shape (0..=N)^2 with unique cells, every mid in (0..=C+1) x (0..=R+1) plus huge components, on owned arrays, on a third-party implementor using only the trait defaults, on windows (interior, edge-touching, nested) of a larger parent and on views built directly over a longer slice: \
          mid <= (C,R) => new[(c,r)] == old[((c+mc) mod C, (r+mr) mod R)] for all cells (so nothing is lost or duplicated) and the parent outside a window is unchanged; a larger mid panics and changes nothing; flip_rows / flip_cols against new[(c,r)] == old[(c,R-1-r)] / old[(C-1-c,r)]. \
-         A hang in the cycle-leader loop is caught by the worker watchdog. A case is (receiver, operation, mid); non-trivial = valid call on a non-empty receiver; distinct by the tuple."
+         Arrays and windows of the zero-sized () must accept and reject exactly the same mids as arrays of ordinary elements. A hang in the cycle-leader loop is caught by the worker watchdog. A case is (receiver, operation, mid); non-trivial = valid call on a non-empty receiver; distinct by the tuple."
             .into()
     }
     fn bound(&self, tier: Tier) -> String {
